@@ -131,9 +131,10 @@ class Tr8(P.Tr):
         if isinstance(e, ast.BinOp) and isinstance(e.op, ast.Pow):
             if up(e.left) in ("-1.0", "(-1.0)", "-1") and self.is_int(e.right):
                 return f"(m1pow {self.zexpr(e.right)}%Z)"
-            require(isinstance(e.right, ast.Constant) and isinstance(e.right.value, int) and not isinstance(e.right.value, bool)
-                    and e.right.value >= 0, f"power {src[:60]}")
-            return f"({self.expr(e.left)} ^ {e.right.value})"
+            if isinstance(e.right, ast.Constant) and isinstance(e.right.value, int) and not isinstance(e.right.value, bool) and e.right.value >= 0:
+                return f"({self.expr(e.left)} ^ {e.right.value})"
+            require(self.is_int(e.right) and not self.is_int(e.left), f"power {src[:60]}")
+            return f"(powerRZ {self.expr(e.left)} {self.zexpr(e.right)}%Z)"      # real base, integer-valued exponent
         if isinstance(e, ast.Subscript):
             return self.subscript(e)
         if isinstance(e, ast.Call):
@@ -157,6 +158,8 @@ class Tr8(P.Tr):
             if f == "np.linalg.norm" and len(e.args) == 1 and up(e.args[0]) in self.vectors and kws == {"axis": "-1"}:
                 x, y, z = self.vectors[up(e.args[0])]
                 return f"(norm3 {x} {y} {z})"
+            if f == "np.where" and len(e.args) == 3 and not kws:
+                return f"(if {self.rcond(e.args[0])} then {self.expr(e.args[1])} else {self.expr(e.args[2])})"
             if f in ("np.real", "np.imag") and len(e.args) == 1 and not kws:
                 re_, im_ = self.cexpr(e.args[0])
                 return re_ if f == "np.real" else im_
@@ -477,10 +480,17 @@ class DerExec(Exec):
 def gen_der(fn: ast.FunctionDef, src: str):
     require([a.arg for a in fn.args.args] == ["l_max", "theta", "phi"], "signature of the derivative routine")
     body = strip_doc(fn.body)
-    require(len(body) == 8, f"derivative routine has {len(body)} top-level statements, expected 8")
+    require(len(body) >= 8, f"derivative routine has {len(body)} top-level statements, expected at least 8")
     expect(body[0], "num_pts = len(theta)", "point count")
     expect(body[1], "output = np.zeros((2, int((l_max + 1) ** 2), num_pts), dtype=np.longdouble)", "output allocation")
     require(isinstance(body[2], ast.Assign) and up(body[2].targets[0]) == "complex_expon", "complex_expon")
+    # optional point-wise real quantities computed once before the loops (translated as lets in front of every iteration)
+    prelude = list(body[3:-5])
+    for st in prelude:
+        require(isinstance(st, ast.Assign) and len(st.targets) == 1 and isinstance(st.targets[0], ast.Name)
+                and st.targets[0].id not in ("l_list", "sph_harm_vals", "i_output", "output", "theta", "phi", "complex_expon"),
+                f"unexpected statement before the loops: {up(st)[:60]}")
+    body = body[:3] + body[-5:]
     expect(body[3], "l_list = np.arange(l_max + 1)", "degree list")
     expect(body[4], "sph_harm_vals = generate_real_spherical_harmonics(l_max, theta, phi)", "harmonics used by the derivative")
     expect(body[5], "i_output = 0", "row counter")
@@ -496,6 +506,10 @@ def gen_der(fn: ast.FunctionDef, src: str):
     ce_re, ce_im = tr.cexpr(body[2].value)
     tr.cplx["complex_expon"] = ("v_complex_expon_re", "v_complex_expon_im")
     pre = f"let v_complex_expon_re := {ce_re} in\nlet v_complex_expon_im := {ce_im} in\n"
+    for st in prelude:
+        nm = st.targets[0].id
+        pre += f"let v_{nm} := {tr.expr(st.value)} in\n"
+        tr.reals.add(nm)
     st = {"adv": 0, "set": set(), "defs": []}
     term = ex.run(list(li.body), st)
     # the nested function definition is collected in whichever branch copy ran first; take it from a fresh pass
